@@ -766,7 +766,9 @@ func boundsBeforeValue(c *core.Ctx) {
 					continue
 				}
 				n++
-				c.Check(!reachesAfter(v, b), "bounds-before-value@"+fname(f), posOf(v), "the bounds of the characteristic are set before its value",
+				// a bound setter that also comes *before* the value on every path ( for _, c := range … { c.SetMinValue(…); c.SetValue(…) } ) is
+				// reached again only around the loop — for the next object, or with the same bounds
+				c.Check(!reachesAfter(v, b) || instrDominates(b, v), "bounds-before-value@"+fname(f), posOf(v), "the bounds of the characteristic are set before its value",
 					"in "+fname(f)+" a characteristic's value is set before its minimum / maximum: the value is clamped against the default range of the characteristic type, the requested range is installed afterwards, and the stored value can lie outside it (NewTemperatureSensor(150, 120, 200) stores and serves 100)")
 			}
 		}
